@@ -18,9 +18,20 @@ func VerifFindSegmentsWindow() {
 		vnd.Assume(false)
 	}
 	defer os.RemoveAll(dir)
+	// two directory layouts: the default one (file names sort like their start times) and a day-first
+	// one over a month boundary (file names sort differently from their start times)
 	base := int64(1700000000) // 2023-11-14T22:13:20Z
+	format := dir + "/%path/%Y-%m-%d_%H-%M-%S-%f"
+	if vnd.Choose("layout", 2) == 1 {
+		base = 1701385200 // 2023-11-30T23:00:00Z
+		format = dir + "/%path/%d-%m-%Y_%H-%M-%S-%f"
+	}
 	starts := []int64{base, base + 3600, base + 7200}
-	names := []string{"2023-11-14_22-13-20-000000.mp4", "2023-11-14_23-13-20-000000.mp4", "2023-11-15_00-13-20-000000.mp4"}
+	names := make([]string, 3)
+	for i, st := range starts {
+		full := Path{Start: time.Unix(st, 0), Path: "cam"}.Encode(format) + ".mp4"
+		names[i] = full[len(dir)+len("/cam/"):]
+	}
 	if os.MkdirAll(dir+"/cam", 0o755) != nil {
 		vnd.Assume(false)
 	}
@@ -38,7 +49,7 @@ func VerifFindSegmentsWindow() {
 	if os.WriteFile(dir+"/cam/readme.txt", []byte("x"), 0o644) != nil {
 		vnd.Assume(false)
 	}
-	pconf := &conf.Path{Name: "cam", RecordPath: dir + "/%path/%Y-%m-%d_%H-%M-%S-%f", RecordFormat: conf.RecordFormatFMP4}
+	pconf := &conf.Path{Name: "cam", RecordPath: format, RecordFormat: conf.RecordFormatFMP4}
 	s, e := vnd.Int64("start"), vnd.Int64("end")
 	vnd.Assume(s >= base-5000 && s <= base+12000 && e >= s && e <= base+12000)
 	var startP, endP *time.Time
